@@ -75,7 +75,8 @@ def _case(draw, max_t, drivers):
       "kind": st.sampled_from(["full", "full", "sub", "sub", "zero", "repeat"]),
       "exp": st.sampled_from([0, 0, 0, -3, -1, 1, 3]),
       "seed": st.integers(0, 2**16)}), min_size=t, max_size=t))
-  return {"driver": driver, "dims": dims, "axis": axis, "k": k, "b": b,
+  return {"sharded": (draw(st.booleans()) if driver == "dsopt" else False),
+          "driver": driver, "dims": dims, "axis": axis, "k": k, "b": b,
           "pad": draw(st.sampled_from([0, 0, 1, 4])) if driver == "ds" else 0,
           "eps": draw(st.sampled_from([0.0, 1e-6, 1e-3, 1e-10])),
           "rel": draw(st.booleans()),
@@ -348,26 +349,52 @@ def run_tf(case):
 
 
 def run_dsopt(case):
+  import contextlib
   import jax
   import jax.numpy as jnp
   from precondition import distributed_shampoo as ds
   dims, k, b = case["dims"], case["k"], case["b"]
-  key = ("dsopt", tuple(dims), k, b, case["eps"], case["rel"])
-  opt = ds.distributed_shampoo(
-      0.1, block_size=64, beta1=0.0, beta2=b, matrix_epsilon=case["eps"],
-      start_preconditioning_step=1, preconditioning_compute_steps=1, statistics_compute_steps=1,
-      best_effort_shape_interpretation=False, graft_type=ds.GraftingType.SGD,
-      relative_matrix_epsilon=case["rel"], compression_rank=k, frequent_directions=True,
-      reuse_preconditioner=True, generate_training_metrics=False)
+  sharded = bool(case.get("sharded"))
+  key = ("dsopt", tuple(dims), k, b, case["eps"], case["rel"], sharded)
+  o = dict(block_size=64, beta1=0.0, beta2=b, matrix_epsilon=case["eps"],
+           start_preconditioning_step=1, preconditioning_compute_steps=1, statistics_compute_steps=1,
+           best_effort_shape_interpretation=False, graft_type="SGD",
+           relative_matrix_epsilon=case["rel"], compression_rank=k, frequent_directions=True,
+           reuse_preconditioner=True, generate_training_metrics=False, lr=0.1)
+  from vp import dsh
+  opt = dsh.make_opt(o, "sharded" if sharded else "plain", 1)
+  params = {"w": jnp.zeros(dims, jnp.float32)}
+  ctx = contextlib.nullcontext()
+  if sharded:
+    from jax.sharding import Mesh
+    ctx = Mesh(np.array(jax.devices()[:1]), ("x",))
+    with ctx:
+      state = opt.init(None).init_fn(params)
+  else:
+    state = opt.init(params)
   if key not in _JIT:
     if len(_JIT) > 20:
       _JIT.clear()
-    _JIT[key] = jax.jit(opt.update)
-  upd = _JIT[key]
-  params = {"w": jnp.zeros(dims, jnp.float32)}
-  state = opt.init(params)
+    with ctx:
+      _JIT[key] = jax.jit(opt.update)
+  upd_raw = _JIT[key]
+
+  def upd(g, st_, p):
+    with ctx:
+      return upd_raw(g, st_, p)
+
+  def packed_of(st_, a):
+    """Packed preconditioner of axis a at its real size."""
+    if not sharded:
+      return st_.stats["w"].preconditioners[a]
+    ls = st_.stats.local_stats["w"]
+    full = st_.stats.global_stats.preconditioners[int(ls.index_start) + a]
+    # the global array keeps every statistic padded to the largest one: the packed slots sit at the end of
+    # the padded matrix, the directions in its first dims[a] rows
+    return full
+
   p = 4
-  trs = [Tracker(dims[a], k, b, p, 2.0 ** -24, f"ds-optimizer-axis{a}") for a in range(2)]
+  trs = [Tracker(dims[a], k, b, p, 2.0 ** -24, f"ds-optimizer{'-sharded' if sharded else ''}-axis{a}") for a in range(2)]
   hist = history(case)
   taus = [0.0, 0.0]
   mx = max(dims)
@@ -375,20 +402,22 @@ def run_dsopt(case):
   excluded = set()
   for g in hist:
     g32 = g.astype(np.float32)
-    prev_pre = [np.asarray(x) for x in state.stats["w"].preconditioners]
+    prev_pre = [np.asarray(packed_of(state, a)) for a in range(2)]
     _, state = upd({"w": jnp.asarray(g32)}, state, params)
     for a in range(2):
-      packed = state.stats["w"].preconditioners[a]
-      require(tuple(packed.shape) == (dims[a], k + 2), "packed-shape", f"{packed.shape}")
+      packed = packed_of(state, a)
+      if not sharded:
+        require(tuple(packed.shape) == (dims[a], k + 2), "packed-shape", f"{packed.shape}")
       V, l, inv, const, tail, hz = ds._fd_low_rank_unpack(packed, k)  # pylint: disable=protected-access
+      V = V[:dims[a]]
       gm = _unfold(g32.astype(np.float64), a)
       if dims[a] < mx:
-        # Known finding KF-C09-1: the packed layout keeps the sketch eigenvalues
-        # (and the has_zeros flag) in the LAST rows of the matrix padded to the
-        # largest statistic; un-padding to the real size drops them, so a
-        # statistic smaller than the largest one forgets its sketch at every
-        # step.  Detected here, reported under its own clause at the end, and
-        # the axis is excluded from the remaining laws (counted).
+        # Former known finding KF-C09-1 (repaired in /repo): the packed layout keeps
+        # the sketch eigenvalues (and the has_zeros flag) in the LAST rows of the
+        # matrix padded to the largest statistic; un-padding to the real size used
+        # to drop them, so a statistic smaller than the largest one forgot its
+        # sketch at every step.  If that ever returns it is reported under its own
+        # clause and the axis is excluded from the remaining laws (counted).
         ev = np.sort(np.linalg.eigvalsh(gm @ gm.T))[::-1]
         expect_first = ev[0] - ev[k]
         if a not in excluded and trs[a].step == 0 and expect_first > 1e-3 * ev[0] and not np.any(np.asarray(l)):
@@ -449,7 +478,9 @@ def check(case):
   if any(s["kind"] == "zero" for s in case["steps"]):
     classes.append("has-zero-step")
   if getattr(tr, "excluded_axes", 0):
-    classes.append("excluded-axis-KF-C09-1")
+    classes.append("excluded-axis-sketch-lost")
+  if case.get("sharded"):
+    classes.append("dsopt-sharded")
   return Result(nontrivial, classes, metrics={"bracket_violation_over_tau": max(tr.worst, 0.0),
                                               "ambiguous_inverse_entries": tr.ambig_entries},
                 sub=len(case["steps"]))
